@@ -78,6 +78,27 @@ def order(ctx: Any) -> List[Ob]:
         early = any(x == 'HOST' for x in t[:lp])
         return late and not (early and keeps)
 
+    # ... and a description that is registered AGAIN (its host name already defaulted at the first registration) is renamed
+    # with its host: `set_server_if_missing` keeps a server that is set, so the only place that can move a defaulted host name
+    # along is the name setter -- it must, while the old key is still there to compare with
+    if keeps:
+        ns = info_cls.setters.get('name')
+        if ns is None:
+            raise AnalysisError('anchor vanished: ServiceInfo.name setter')
+        sme, newp = ns.params[0], ns.params[1]
+        scfg = cfg_of(ns.node)
+        key_store = [n for n in scfg.nodes if n.kind == 'stmt' and any(self_attr(t, sme) == 'key' for t, _ in attr_stores(n.ast))]
+        moved = []
+        for n in scfg.nodes:
+            if n.kind != 'stmt':
+                continue
+            for t, st in attr_stores(n.ast):
+                if self_attr(t, sme) == 'server_key' and isinstance(st, ast.Assign) and newp in {x.id for x in ast.walk(st.value) if isinstance(x, ast.Name)}:
+                    guards = [g_ for g_ in scfg.nodes if g_.kind == 'test' and 'server_key' in norm(g_.ast) and f'{sme}.key' in norm(g_.ast) and scfg.only_through_edge(g_, True, n)]
+                    early = all(not scfg.can_reach(k_, g_) for g_ in guards for k_ in key_store)
+                    if guards and early:
+                        moved.append(n)
+        obs.append(ob(R, ns, moved[0].ast if moved else 'if self.server_key == self.key: self.server = name; self.server_key = name.lower()', 'a host name that was defaulted to the instance name follows the instance when it is renamed (a description registered a second time is renamed with its host; else SRV target and addresses stay under the old, conflicting name)', bool(moved), '' if moved else 'the name setter leaves the host name alone: a defaulted host keeps the name the service was renamed away from'))
     badh = sorted(t for t in got if not host_ok(t))
     obs.append(ob(R, f, 'info.set_server_if_missing()', 'the default host name is derived from the final name: after the conflict check (which may rename the service), before the registry insert, and not pinned earlier (a renamed service must not announce its SRV target and addresses under the conflicting name)', not badh, f'paths {badh}'))
     aw = [n for n in walk_local_ordered(f.node) if isinstance(n, ast.Await) and isinstance(n.value, ast.Call) and call_name(n.value) in ('async_wait_for_start', 'async_check_service')]
